@@ -19,6 +19,7 @@ func init() {
 	register(&Prop{
 		ID: "C09",
 		Rule: "valid PBF files of 0..8 blocks (blocks of one kind only, so that skip flags produce empty blocks at the start, in the middle and at the end), all 8 skip-flag combinations, decoder counts 1..8; after every Scan the reported current/previous offsets are compared with the model, and for every reported offset a second scanner is started on data[offset:] and must yield the rest of the objects beginning with the first object of that block; " +
+			"resumed scans alternately on a reader over the rest of the data and on a seekable reader over all of it positioned at the offset; " +
 			"non-trivial = at least one object returned; distinct = distinct op line",
 		Gen:  c09Gen,
 		Exec: c09Exec,
